@@ -58,6 +58,8 @@ structure DState where
   armed : List (String × Int) := []
   /-- provider-level sequences (awsops): the cached group the model's previous operation left behind -/
   awsG : Option PGroup := none
+  /-- the rest of a provider-level sequence is skipped after an operation during which the harness saw the machine stall -/
+  awsSkip : Bool := false
   /-- C05 monitor: per group, the node size last observed in this controller lifetime ((-1,-1): the
       uncordoned nodes listed last were not all of one size, so "the node size" is not defined). -/
   seen : List (String × (Int × Int)) := []
@@ -460,9 +462,18 @@ def handleLine (ds : DState) (line : String) : DState × Json :=
       | .ok (sc : ScanCase) => handleScan ds sc
     | .ok other =>
       if other == "awsop" then
+        -- the harness's own watchdog saw the machine stall while this operation waited on real timers (fleet readiness polls): the
+        -- number of polls that fit into the timeout is then not the implementation's doing. The operation, and the rest of the
+        -- sequence on the same provider object (the cached group can no longer be threaded), are not compared.
+        let stalled : Bool := (match j.getObjValAs? Bool "stalled" with | .ok b => b | .error _ => false)
+        let seq : Nat := (match j.getObjValAs? Nat "seq" with | .ok n => n | .error _ => 0)
+        let skipping := stalled || (ds.awsSkip && seq > 0)
+        if skipping then
+          ({ ds with awsSkip := true, awsG := none }, Json.mkObj [("diffs", toJson ([] : List String)), ("mon", toJson ([] : List String)), ("branches", toJson ([] : List String)), ("nt", toJson "awsop:stalled-not-compared")])
+        else
         let (r, g') := handleAwsOp ds.awsG j
         let detail := if r.diffs.isEmpty && r.mon.isEmpty then [] else [("model", r.model)]
-        ({ ds with awsG := g' }, Json.mkObj ([("diffs", toJson r.diffs), ("mon", toJson r.mon), ("branches", toJson ([] : List String)), ("nt", toJson r.tag)] ++ detail))
+        ({ ds with awsG := g', awsSkip := false }, Json.mkObj ([("diffs", toJson r.diffs), ("mon", toJson r.mon), ("branches", toJson ([] : List String)), ("nt", toJson r.tag)] ++ detail))
       else
       let out : Option OpOut := match other with
         | "arith" => some (handleArith j)
